@@ -22,9 +22,12 @@ def neg(x):
 
 
 def summ(xs):
-    out = []
-    for x in xs:
-        out += list(x[1]) if x[0] == "sum" else [x]
+    """n-ary sum = the left-associated chain ((x0 + x1) + x2) ...: only a sum in the FIRST
+    position is spliced in; a + (b + c) keeps its right operand as a sum of its own (float
+    addition is not associative)."""
+    xs = list(xs)
+    out = list(xs[0][1]) if xs and xs[0][0] == "sum" else xs[:1]
+    out += xs[1:]
     return ("sum", tuple(out))
 
 
